@@ -672,8 +672,14 @@ def translate (c : Ctx) (post : Bool) (nodes : Array Node) (twinOf : Nat → Opt
                     (physLoc an).map fun l => .op (constKey (immValue v asz)) [] [l] [] false false
                   else none
                 | [.mem msz _ mb mi md mfl, .imm v] =>
-                  if n.name == "mov" && mi == "-" && mfl &&& 3 == 2 && msz != 0 then
-                    (slotLoc c mb md).map fun l => .op (constKey (immValue v msz)) [] [l] [] false false
+                  if n.name == "mov.pair" && mi == "-" then
+                    -- two dword stores of the halves of a 64-bit immediate, merged by `mergeImmPairs`
+                    (slotLoc c mb md).map fun l => .op (constKey (immValue v 8)) [] [l] [] false false
+                  else if n.name == "mov" && mi == "-" && mfl &&& 3 == 2 && msz != 0 then
+                    -- `mov qword [m], imm` only has a sign-extended 32-bit immediate: a value outside int32 is not what gets stored
+                    let iv := v.toInt?.getD 0
+                    let enc := msz != 8 || (iv ≥ -2147483648 && iv ≤ 2147483647)
+                    (slotLoc c mb md).map fun l => .op (if enc then constKey (immValue v msz) else s!"const {immValue v msz} NOT-ENCODABLE-as-imm32") [] [l] [] false false
                   else none
                 | _ => none
               -- `lea reg, [sp + X]`: reg holds the address of slot X;  `mov [reg], src` with such a reg: a store into slot X
@@ -713,12 +719,16 @@ def translate (c : Ctx) (post : Bool) (nodes : Array Node) (twinOf : Nat → Opt
               if userMem then throw s!"unsupported inserted instruction {n.name} touches memory"
               inst := .op key [] (writes ++ slotWrites) [] false false
     if post then
-      let ws : List Nat := match inst with
-        | .op _ _ ws cs _ _ => ws ++ cs
-        | .move d _ _ => [d]
-        | .swap a b _ => [a, b]
-        | _ => []
-      addrOf := addrOf.filter fun x => !(ws.contains x.1) && !(ws.contains x.2)
+      -- which locations hold the address of a stack temporary: copied by moves / swaps, forgotten when overwritten
+      match inst with
+      | .move d sr _ =>
+        let v := addrOf.lookup sr
+        addrOf := addrOf.filter (·.1 != d)
+        if let some sl := v then addrOf := (d, sl) :: addrOf
+      | .swap a b _ =>
+        addrOf := addrOf.map fun x => (if x.1 == a then b else if x.1 == b then a else x.1, x.2)
+      | .op _ _ ws cs _ _ => addrOf := addrOf.filter fun x => !((ws ++ cs).contains x.1)
+      | _ => pure ()
     out := { out with insts := out.insts.push inst, tags := out.tags.push n.tag }
   return (out, spairs)
 
@@ -809,10 +819,45 @@ def dedup (l : List Nat) : List Nat := l.foldl (fun acc x => if acc.contains x t
 
 /-! ### stack slots must not overlap (checked from the dumped operands and frame data, not assumed) -/
 
+/-- `mov dword [sp+d], lo ; mov dword [sp+d+4], hi` (64-bit targets only: a 64-bit immediate argument that does not fit a sign-extended imm32) is one
+    8-byte constant store: the first node becomes `mov.pair qword [sp+d], (hi:lo)`, the second is dropped -/
+def mergeImmPairs (is64 : Bool) (postN : Array Node) : Array Node := if !is64 then postN else Id.run do
+  let mut out : Array Node := #[]
+  let mut skip := false
+  for i in [0:postN.size] do
+    if skip then
+      skip := false
+      continue
+    let n := postN[i]!
+    let nx := postN.getD (i + 1) { kind := 'E' }
+    match n.kind, n.tag, n.name, n.ops, nx.kind, nx.tag, nx.name, nx.ops with
+    | 'I', 0, "mov", [.mem 4 sg b "-" d fl, .imm lo], 'I', 0, "mov", [.mem 4 _ b2 "-" d2 _, .imm hi] =>
+      if b == b2 && d2 == d + 4 && (b.startsWith "p0.") then
+        let v := (lo.toInt?.getD 0) % (2 ^ 32 : Int) + ((hi.toInt?.getD 0) % (2 ^ 32 : Int)) * (2 ^ 32 : Int)
+        out := out.push { n with name := "mov.pair", ops := [.mem 8 sg b "-" d fl, .imm (toString v)] }
+        skip := true
+      else out := out.push n
+    | _, _, _, _, _, _, _, _ => out := out.push n
+  return out
+
 /-- (slot location, bytes, user stack area?) of every sp/fp-relative operand of the allocated program; for a user area
     access the location is the *start of the area* and the size the size of the area -/
 def slotAccesses (c : Ctx) (postN : Array Node) (twinOf : Nat → Option Node) : List (Nat × Nat × Bool) :=
-  postN.toList.flatMap fun n =>
+  (List.range postN.size).flatMap fun idx =>
+    let n := postN[idx]!
+    if n.kind == 'I' && n.tag == 0 && n.name == "lea" then
+      -- temporary of a by-reference argument: `lea reg, [sp+X]`, filled through `reg` by one of the next instructions
+      match n.ops with
+      | [.reg an .., .mem _ _ mb "-" md _] =>
+        match slotLoc c mb md with
+        | some sl =>
+          let sz := ((List.range 4).findSome? fun k => match (postN.getD (idx + 1 + k) { kind := 'E' }).ops with
+            | [.mem _ _ b2 "-" 0 _, .reg _ _ rsz ..] => if b2 == an then some rsz else none
+            | _ => none).getD 16
+          [(sl, sz, false)]
+        | none => []
+      | _ => []
+    else
     if n.kind == 'C' then
       n.locs.filterMap fun l => if l.startsWith "s" && !l.endsWith "i" then (abiLoc c l).map fun sl => (sl, c.word, false) else none
     else if n.kind != 'I' then [] else
@@ -1023,7 +1068,8 @@ def prepare (ts : List String) : Except String Prep :=
   | "ok" :: "ARCH" :: arch :: "VREGS" :: vregs :: "ARGS" :: args :: "PRE" :: rest => do
       let (preN, rest) ← parseNodes rest #[]
       let rest := rest.dropWhile (· != "POST")
-      let (postN, _) ← parseNodes (rest.drop 1) #[]
+      let (postN0, _) ← parseNodes (rest.drop 1) #[]
+      let postN := mergeImmPairs (arch != "x86") postN0
       let x86 := arch != "a64"
       let vinfo := if vregs == "-" then [] else (splitOn1 vregs ',').map (fun s => (splitOn1 s ':').map String.toNat!)
       let nv := vinfo.foldl (fun m v => max m (v.getD 0 0 + 1)) 0
